@@ -228,6 +228,12 @@ def run(ctx):
                 waits += [c for c in cb_.calls() if c.callee and BLOCKING.search(c.callee.best)]
         R2.check(not waits, cfg, TH, 'ends-without-waiting', 'after leaving its loop the thread waits again (%s): it does not exit while a sender is alive, its receivers are never dropped, and the sources / watcher never learn that the cache is gone'
                  % sorted({c.callee.best for c in waits}), waits[0].loc() if waits else b.loc())
+        # every message leaves a channel through one of the try_recv calls judged above: a second way of emptying a receiver
+        # (try_iter, iter, recv ..) cannot tell `empty` from `disconnected`, so the thread would neither stop nor sleep
+        unit = [b] + [x for x in F.closures_of.get(b.path, [])]
+        other_rx = [c for x in unit for c in x.calls() if c.callee and re.search(r'^crossbeam_channel::Receiver::<T>::(try_iter|iter|recv|recv_timeout|recv_deadline|len|is_empty)$|crossbeam_channel::Receiver<.*> as std::iter::IntoIterator>::into_iter$', c.callee.best)]
+        R2.check(not other_rx, cfg, TH, 'receives-only-through-the-matched-try_recv', 'the thread also takes messages with %s: that path cannot notice a disconnected channel (Select::ready then returns at once, for ever)'
+                 % sorted({c.callee.best for c in other_rx}), other_rx[0].loc() if other_rx else b.loc())
         # R3
         hb = F.one(r'^<hot_reloading::watcher::NotifyEventHandler as notify::EventHandler>::handle_event$')
         if not hb:
